@@ -152,6 +152,8 @@ package allocator
 //@   ensures a.bitmap == locked(a.bitmap) && a.allocatedCount == locked(a.allocatedCount) && a.nextFree == locked(a.nextFree) && a.allocated == locked(a.allocated) && a.indexToSubscriber == locked(a.indexToSubscriber)
 //@   ensures a.nonnil && a.distinct && a.total && a.fwd && a.rev && a.bits && a.cnt
 //@   ensures (result != nil) == locked(subscriberID in a.allocated)
+//@   ensures dom(a.allocated) == locked(dom(a.allocated)) && vals(a.allocated) == locked(vals(a.allocated)) && dom(a.indexToSubscriber) == locked(dom(a.indexToSubscriber)) && vals(a.indexToSubscriber) == locked(vals(a.indexToSubscriber))
+//@   ensures bits(a.bitmap) == locked(bits(a.bitmap)) && bigval(a.allocatedCount) == locked(bigval(a.allocatedCount)) && bigval(a.nextFree) == locked(bigval(a.nextFree)) && card(a.allocated) == locked(card(a.allocated)) && card(a.indexToSubscriber) == locked(card(a.indexToSubscriber))
 
 //@ func (a *IPAllocator) Stats
 //@   ensures allocated == locked(card(a.allocated)) % 18446744073709551616 && total == locked(bigval(a.totalPrefixes))
@@ -206,10 +208,32 @@ package allocator
 //@ pure func sessionMode(da *DistributedAllocator) bool =
 //@     da.mode != PoolModeLease && da.allocator != nil && da.store != nil && da.allocator.nonnil && da.allocator.distinct && da.allocator.total && da.allocator.fwd && da.allocator.rev && da.allocator.bits && da.allocator.cnt
 
+//@ func (da *DistributedAllocator) hasLocalAllocation
+//@   mode seq
+//@   requires sessionMode(da)
+//@   modifies da.allocator.bitmap, da.allocator.allocatedCount, da.allocator.nextFree, da.allocator.allocated, da.allocator.indexToSubscriber
+//@   ensures sessionMode(da)
+//@   ensures da.allocator.bitmap == old(da.allocator.bitmap) && da.allocator.allocatedCount == old(da.allocator.allocatedCount) && da.allocator.nextFree == old(da.allocator.nextFree) && da.allocator.allocated == old(da.allocator.allocated) && da.allocator.indexToSubscriber == old(da.allocator.indexToSubscriber)
+//@   ensures dom(da.allocator.indexToSubscriber) == old(dom(da.allocator.indexToSubscriber)) && vals(da.allocator.indexToSubscriber) == old(vals(da.allocator.indexToSubscriber)) && bigval(da.allocator.allocatedCount) == old(bigval(da.allocator.allocatedCount)) && bigval(da.allocator.nextFree) == old(bigval(da.allocator.nextFree)) && card(da.allocator.allocated) == old(card(da.allocator.allocated)) && card(da.allocator.indexToSubscriber) == old(card(da.allocator.indexToSubscriber))
+//@   ensures dom(da.allocator.allocated) == old(dom(da.allocator.allocated)) && vals(da.allocator.allocated) == old(vals(da.allocator.allocated)) && bits(da.allocator.bitmap) == old(bits(da.allocator.bitmap))
+//@   ensures result == (subscriberID in da.allocator.allocated)
+
 // Allocate: on success the subscriber holds the returned prefix locally and the
 // store received a record naming exactly that subscriber and prefix; on failure
 // neither the local allocator nor the store changed (so they still agree).
 //@ func (da *DistributedAllocator) Allocate
+//@   mode seq
+//@   requires sessionMode(da)
+//@   modifies da.allocator.bitmap, da.allocator.allocatedCount, da.allocator.nextFree, da.allocator.allocated, da.allocator.indexToSubscriber, storePuts, lastPutDoc
+//@   ensures err == nil ==> result != nil && subscriberID in da.allocator.allocated && storePuts == old(storePuts) + 1
+//@   ensures err == nil ==> json_str(lastPutDoc, "subscriber_id") == subscriberID && json_str(lastPutDoc, "prefix") == ipnet_str(result)
+//@   ensures err == nil && old(subscriberID in da.allocator.allocated) ==> dom(da.allocator.allocated) == old(dom(da.allocator.allocated)) && vals(da.allocator.allocated) == old(vals(da.allocator.allocated))
+//@   ensures err != nil ==> storePuts == old(storePuts) && lastPutDoc == old(lastPutDoc)
+//@   ensures err != nil && !old(subscriberID in da.allocator.allocated) ==> dom(da.allocator.allocated) == old(dom(da.allocator.allocated)) && bits(da.allocator.bitmap) == old(bits(da.allocator.bitmap))
+//@   ensures err != nil && !old(subscriberID in da.allocator.allocated) ==> forall s string :: s in da.allocator.allocated ==> da.allocator.allocated[s] == old(da.allocator.allocated[s])
+//@   ensures old(subscriberID in da.allocator.allocated) && err != nil ==> dom(da.allocator.allocated) == old(dom(da.allocator.allocated)) && bits(da.allocator.bitmap) == old(bits(da.allocator.bitmap))
+
+//@ func (da *DistributedAllocator) AllocateWithMAC
 //@   mode seq
 //@   requires sessionMode(da)
 //@   modifies da.allocator.bitmap, da.allocator.allocatedCount, da.allocator.nextFree, da.allocator.allocated, da.allocator.indexToSubscriber, storePuts, lastPutDoc
